@@ -336,12 +336,20 @@ impl RtMessage {
             result.push_str(&value.len().to_string());
             result.push_str(") = ");
 
-            if tag.is_nested() {
-                let nested_msg = RtMessage::from_bytes(value).unwrap();
-                result.push_str(&nested_msg.to_string(indent_level + 1))
+            // A nested tag's value is untrusted: show it as a message only if it parses,
+            // otherwise fall back to the raw bytes instead of panicking.
+            let nested_msg = if tag.is_nested() {
+                RtMessage::from_bytes(value).ok()
             } else {
-                result.push_str(&HEX.encode(value));
-                result.push('\n');
+                None
+            };
+
+            match nested_msg {
+                Some(nested_msg) => result.push_str(&nested_msg.to_string(indent_level + 1)),
+                None => {
+                    result.push_str(&HEX.encode(value));
+                    result.push('\n');
+                }
             }
         }
 
